@@ -37,11 +37,19 @@ pub struct Case {
     /// file, so that putting the finished file in place (rename) fails at that moment
     #[serde(default)]
     pub obstruct: Option<String>,
+    /// instead of a write fault: content number `.0` is a file that cannot be read (kind `.1`,
+    /// see container::INPUT_FAULT) when the creator comes to read it
+    #[serde(default)]
+    pub input_fault: Option<(usize, u8)>,
 }
 
 /// `jbkv create-child <spec.json> <destdir> <name>`: the process that is killed.
 pub fn create_child_cmd(spec_path: &Path, dest: &Path, name: &str) -> i32 {
     let spec: ContainerSpec = serde_json::from_slice(&std::fs::read(spec_path).expect("spec readable")).expect("spec decodes");
+    if let Ok(v) = std::env::var("JBKV_INPUT_FAULT") {
+        let mut it = v.split(':').map(|x| x.parse::<usize>().expect("JBKV_INPUT_FAULT=k:kind"));
+        *crate::container::INPUT_FAULT.lock().unwrap() = Some((it.next().unwrap(), it.next().unwrap() as u8));
+    }
     match build(&spec, dest, name, None) {
         Ok(_) => 0,
         Err(f) => {
@@ -217,6 +225,29 @@ pub fn run_obstructed(p: &Prepared, pre_existing: bool, file: &str, dest: &Path)
     RunInfo { child_end: end, state, leftovers }
 }
 
+/// Creation with an input that can no longer be read when the creator comes to it.
+pub fn run_input_fault(p: &Prepared, pre_existing: bool, fault: (usize, u8), dest: &Path) -> RunInfo {
+    let _ = std::fs::remove_dir_all(dest);
+    std::fs::create_dir_all(dest).unwrap();
+    if pre_existing {
+        copy_files(&p.old_dir, dest);
+    }
+    let end = run_child(&p.spec_path, dest, &[("JBKV_MODE", "count".to_string()), ("JBKV_DIR", dest.to_string_lossy().to_string()), ("JBKV_INPUT_FAULT", format!("{}:{}", fault.0, fault.1))]);
+    let (state, leftovers) = examine(dest, &p.model, if pre_existing { Some(&p.old_main) } else { None });
+    RunInfo { child_end: end, state, leftovers }
+}
+
+/// The creator may have read the content before it became unreadable (then the complete container
+/// is right); otherwise creation has to fail and leave nothing, or the previous file.
+pub fn judge_input_fault(fault: (usize, u8), info: &RunInfo) -> Option<Failure> {
+    match &info.state {
+        DestState::Bad(sig, msg) => Some(Failure::new(format!("input-fault:{sig}"), format!("content #{} unreadable (kind {}): child {}: {msg}", fault.0, fault.1, info.child_end))),
+        DestState::NewOk => None,
+        _ if info.child_end == "success" => Some(Failure::new("input-fault:success-without-result", format!("content #{} unreadable (kind {}): creation reports success, destination is {:?}", fault.0, fault.1, info.state))),
+        _ => None,
+    }
+}
+
 pub fn judge_obstructed(p: &Prepared, file: &str, info: &RunInfo) -> Option<Failure> {
     match &info.state {
         DestState::Bad(sig, msg) => Some(Failure::new(format!("obstructed:{sig}"), format!("{file} cannot be renamed into place: child {}: {msg}", info.child_end))),
@@ -261,6 +292,14 @@ pub fn replay_child_cmd(path: &Path) -> i32 {
             return 1;
         }
     };
+    if let Some(fault) = case.input_fault {
+        let info = run_input_fault(&p, case.pre_existing, fault, &scratch.path().join("dest"));
+        if let Some(f) = judge_input_fault(fault, &info) {
+            println!("FAIL {}\u{1}{}", f.sig, f.msg.replace('\n', " "));
+            return 1;
+        }
+        return 0;
+    }
     if let Some(file) = &case.obstruct {
         let info = run_obstructed(&p, case.pre_existing, file, &scratch.path().join("dest"));
         if let Some(f) = judge_obstructed(&p, file, &info) {
@@ -347,7 +386,7 @@ pub fn check_cmd(tier: Tier) -> i32 {
             Ok(p) => preps.push((p, *stride)),
             Err(e) => {
                 // the fault-free path itself is broken: that is a violation of "budget >= total must succeed"
-                let saved = SavedFailure { property: id.into(), sig: "fault-free-run-broken".into(), msg: e.clone(), case: serde_json::to_value(Case { spec: spec.clone(), old_spec: old_spec_for(spec), pre_existing: false, mode: Mode::Enospc, budget: u64::MAX / 2, obstruct: None }).unwrap(), note: format!("spec {name}") };
+                let saved = SavedFailure { property: id.into(), sig: "fault-free-run-broken".into(), msg: e.clone(), case: serde_json::to_value(Case { spec: spec.clone(), old_spec: old_spec_for(spec), pre_existing: false, mode: Mode::Enospc, budget: u64::MAX / 2, obstruct: None, input_fault: None }).unwrap(), note: format!("spec {name}") };
                 if known.contains(&saved.sig) {
                     continue;
                 }
@@ -372,7 +411,7 @@ pub fn check_cmd(tier: Tier) -> i32 {
                         *summary.merged.excluded_known.entry(f.sig).or_default() += 1;
                         continue;
                     }
-                    let saved = SavedFailure { property: id.into(), sig: f.sig.clone(), msg: f.msg.clone(), case: serde_json::to_value(Case { spec: p.spec.clone(), old_spec: p.old_spec.clone(), pre_existing: pre, mode: Mode::Enospc, budget: 0, obstruct: Some(file.clone()) }).unwrap(), note: format!("rename of {file} obstructed; spec {}", p.name) };
+                    let saved = SavedFailure { property: id.into(), sig: f.sig.clone(), msg: f.msg.clone(), case: serde_json::to_value(Case { spec: p.spec.clone(), old_spec: p.old_spec.clone(), pre_existing: pre, mode: Mode::Enospc, budget: 0, obstruct: Some(file.clone()), input_fault: None }).unwrap(), note: format!("rename of {file} obstructed; spec {}", p.name) };
                     let path = save_replay(id, &format!("s{seed}-obstruct-{}-{}", p.name, file.replace('.', "_")), &saved);
                     println!("VIOLATION property={id} replay={}", path.display());
                     eprintln!("  sig={} msg={}", f.sig, f.msg);
@@ -382,6 +421,38 @@ pub fn check_cmd(tier: Tier) -> i32 {
         }
     }
     summary.merged.evaluations += obstruct_runs;
+    // unreadable inputs: every content of the main pack x {fresh, pre-existing}. Only kind 0 (reading
+    // the handle fails with an error) is in the property's fault model; an input file that SHRINKS
+    // after add_content (kinds 1, 2) raises no error anywhere - the creator then reports success for
+    // a container whose content cannot be decoded - and is not demanded (DESIGN §14)
+    let mut input_runs = 0u64;
+    for (p, _) in &preps {
+        if p.spec.contents.len() > 12 {
+            continue;
+        }
+        for k in 0..p.spec.contents.len() {
+            for kind in 0..1u8 {
+                for pre in [false, true] {
+                    let dest = scratch.path().join("dest-input");
+                    let info = run_input_fault(p, pre, (k, kind), &dest);
+                    input_runs += 1;
+                    *summary.merged.classes.entry(format!("input-fault:{}:{}", ["unreadable", "cut-to-half", "cut-to-nothing"][kind as usize], match &info.state { DestState::Absent => "absent", DestState::Old => "old", DestState::NewOk => "new-ok", DestState::Bad(..) => "BAD" })).or_default() += 1;
+                    if let Some(f) = judge_input_fault((k, kind), &info) {
+                        if known.contains(&f.sig) {
+                            *summary.merged.excluded_known.entry(f.sig).or_default() += 1;
+                            continue;
+                        }
+                        let saved = SavedFailure { property: id.into(), sig: f.sig.clone(), msg: f.msg.clone(), case: serde_json::to_value(Case { spec: p.spec.clone(), old_spec: p.old_spec.clone(), pre_existing: pre, mode: Mode::Enospc, budget: 0, obstruct: None, input_fault: Some((k, kind)) }).unwrap(), note: format!("input of content #{k} unreadable; spec {}", p.name) };
+                        let path = save_replay(id, &format!("s{seed}-input-{}-{k}-{kind}", p.name), &saved);
+                        println!("VIOLATION property={id} replay={}", path.display());
+                        eprintln!("  sig={} msg={}", f.sig, f.msg);
+                        summary.violations.push((f.sig, path));
+                    }
+                }
+            }
+        }
+    }
+    summary.merged.evaluations += input_runs;
     // crash points
     struct Job {
         prep: usize,
@@ -498,7 +569,7 @@ pub fn check_cmd(tier: Tier) -> i32 {
     summary.merged.excluded_known = t.excluded;
     for (k, (sig, (f, prep, pre, mode, budget))) in t.failures.into_iter().enumerate() {
         let p = &preps[prep].0;
-        let saved = SavedFailure { property: id.into(), sig: sig.clone(), msg: f.msg.clone(), case: serde_json::to_value(Case { spec: p.spec.clone(), old_spec: p.old_spec.clone(), pre_existing: pre, mode, budget, obstruct: None }).unwrap(), note: format!("smallest failing budget of signature; spec {}", p.name) };
+        let saved = SavedFailure { property: id.into(), sig: sig.clone(), msg: f.msg.clone(), case: serde_json::to_value(Case { spec: p.spec.clone(), old_spec: p.old_spec.clone(), pre_existing: pre, mode, budget, obstruct: None, input_fault: None }).unwrap(), note: format!("smallest failing budget of signature; spec {}", p.name) };
         let path = save_replay(id, &format!("s{seed}-{k}"), &saved);
         println!("VIOLATION property={id} replay={}", path.display());
         eprintln!("  sig={sig} msg={}", f.msg);
